@@ -26,9 +26,9 @@ LEVEL = 'model_checking'
 ENGINE = 'E2-bfs'
 RULE = (
     'BFS over histories of {new(slot,variant), call(slot,method,args; positional and keyword spellings), drop(slot), '
-    'gc, flood(130 objects)}; probe class with weak_lru_cache(maxsize=2): 2 slots depth 7 and 3 slots depth 5 (quick: '
+    'copy(slot 0 -> slot 1 with the other variant\'s data), gc, flood(130 objects)}; probe class with weak_lru_cache(maxsize=2): 2 slots depth 7 and 3 slots depth 5 (quick: '
     '6/4); real classes Transitions, Jumps, TrajectoryMetrics (and the Collective returned by Jumps.collective), call menu = '
-    'listed methods + every further method found memoised on the tree under test: 2 slots depth 4 (thorough 5; the split-based statistics of Jumps only in the thorough tier); state = (slot contents, calls made, cache_info of every cache)'
+    'listed methods + every further method found memoised on the tree under test: 2 slots depth 4 (thorough 5; the split-based statistics of Jumps only in the thorough tier); Jumps objects of a variant share one Transitions and differ in minimal_residence; metrics objects also through Trajectory.metrics(); state = (slot contents and origin new/copy, calls made, cache_info of every cache)'
 )
 LEVEL_TEXT = (
     'Explicit-state model checking of the memoisation layer: every interleaving of creating, querying with '
